@@ -33,21 +33,24 @@ def _strategy_kl(shapes):
         D, Rp, Rq = draw(st.sampled_from(shapes))
         kappa = draw(st.sampled_from([10.0, 100.0]))
         same = draw(st.sampled_from([False, False, False, True])) and Rp == Rq
-        p = draw(gen.measure_params("pdf", Rp, D, kappa, extreme=True))
-        q = p if same else draw(gen.measure_params("pdf", Rq, D, kappa, extreme=True))
+        # classes of the two sides are drawn independently (a diagonal p against a full q and vice versa)
+        kp = draw(st.sampled_from(["pdf", "pdf", "diag_pdf"]))
+        kq = kp if same else draw(st.sampled_from(["pdf", "pdf", "diag_pdf"]))
+        p = draw(gen.measure_params(kp, Rp, D, kappa, extreme=True))
+        q = p if same else draw(gen.measure_params(kq, Rq, D, kappa, extreme=True))
         # far-mean regime: both densities live 1e4 / 1e6 standard deviations away from the origin and close to each other
         # (time stamps, absolute positions); KL and entropy do not depend on the common offset
         far = draw(st.sampled_from([0.0, 0.0, 0.0, 1e4, 1e6]))
         if far:
             unit = gen.unit_of("pdf", p)
             if not same:
-                q = draw(gen.measure_params("pdf", Rq, D, kappa))
+                q = draw(gen.measure_params(kq, Rq, D, kappa))
                 q = {"Sigma": np.asarray(q["Sigma"], float) * unit**2, "mu": np.asarray(q["mu"], float) * unit}
             sd = float(np.sqrt(np.mean(np.linalg.eigvalsh(np.asarray(p["Sigma"], float)[0]))))
             off = far * sd * draw(gen.arr((D,), 0.5, 1.5)) * np.where(draw(gen.arr((D,), -1, 1)) < 0, -1.0, 1.0)
             p = {"Sigma": p["Sigma"], "mu": np.asarray(p["mu"], float) + off}
             q = p if same else {"Sigma": q["Sigma"], "mu": np.asarray(q["mu"], float) + off}
-        return {"D": D, "Rp": Rp, "Rq": Rq, "same": same, "p": p, "q": q, "diag": draw(st.booleans()), "far": far}
+        return {"D": D, "Rp": Rp, "Rq": Rq, "same": same, "p": p, "q": q, "diag": draw(st.booleans()), "far": far, "kp": kp, "kq": kq}
     return s()
 
 
@@ -59,8 +62,8 @@ def _run_kl(case):
     kind = "pdf"
     mp, Sp = np.asarray(case["p"]["mu"], float), np.asarray(case["p"]["Sigma"], float)
     mq, Sq = np.asarray(case["q"]["mu"], float), np.asarray(case["q"]["Sigma"], float)
-    ok, p = lib(fails, "construct_p", libx.make_measure, kind, case["p"])
-    ok2, q = lib(fails, "construct_q", libx.make_measure, kind, case["q"])
+    ok, p = lib(fails, "construct_p", libx.make_measure, case.get("kp", kind), case["p"])
+    ok2, q = lib(fails, "construct_q", libx.make_measure, case.get("kq", kind), case["q"])
     if not (ok and ok2):
         return fails
     H, Hs = _entropy_np(Sp)
@@ -102,7 +105,7 @@ def _nontrivial_kl(case):
 
 def _labels_kl(case):
     c = "(R,R)" if case["Rp"] == case["Rq"] else ("(1,n)" if case["Rp"] == 1 else "(n,1)")
-    return [f"combo={c}", f"same={case['same']}", f"far_mean={case.get('far', 0.0):g}"]
+    return [f"combo={c}", f"same={case['same']}", f"far_mean={case.get('far', 0.0):g}", f"classes={case.get('kp', 'pdf')}|{case.get('kq', 'pdf')}"]
 
 
 def _extra(draw, case):
